@@ -19,6 +19,25 @@ from harness.common import cstr, copt, clist, cpair
 PREFIXES = ["p", "q", "ns1", "eml", "xsi", "stmml", "é", "x-1", "_"]
 
 
+def coq_tree(sn):
+    """nodelib.coq_ftree, with a default-namespace key None printed as the string the exporter's
+    f-string prints for it ("None"); such trees are outside the class and go to the correspondence only"""
+    def fix(s):
+        return dict(s, nsmap=[["None" if k is None else k, v] for k, v in s["nsmap"]], kids=[fix(k) for k in s["kids"]])
+    return NL.coq_ftree(fix(sn))
+
+
+def json_doc(sn):
+    """the JSON text of a tree in metapype's own layout, written by the harness (document-first)"""
+    import json
+
+    def ser(s):
+        return {s["name"]: [{"id": s["id"]}, {"nsmap": dict(s["nsmap"])}, {"prefix": s["prefix"]},
+                            {"attributes": dict(s["attrs"])}, {"extras": dict(s["extras"])}, {"content": s["content"]},
+                            {"tail": s["tail"]}, {"children": [ser(k) for k in s["kids"]]}]}
+    return json.dumps(ser(sn))
+
+
 # ------------------------------------------------------------------ generators
 def gen_nsmap_root(rng):
     n = rng.choice([0, 0, 1, 1, 2, 3])
@@ -392,8 +411,10 @@ def in_general_class(sn, parent_keys=None):
         if sn["tail"] is not None:          # no tail on the root
             return False
         parent_keys = ()
+    if any(k is None for k, _ in sn["nsmap"]):      # a default namespace: deliberately outside the class
+        return False
     ns = dict(sn["nsmap"])
-    if any(k not in ns for k in parent_keys):
+    if any(k not in ns for k in parent_keys):      # non-closed: a child lacks a prefix of its parent
         return False
     if any(u in ("", X.XML_NS, "http://www.w3.org/2000/xmlns/") or k in ("xml", "xmlns") for k, u in sn["nsmap"]):
         return False
@@ -457,12 +478,12 @@ def history_phase(ctx, io, export, thorough):
                          dict(rep, path=path, level=level, output=got))
             if io.to_xml(skip_ns=skip, level=level, parent=(None if n is node else n.parent), node=n) != got:
                 ctx.fail("C07:history:kwargs", "keyword and positional calls of to_xml differ", dict(rep, path=path))
-            pcases.append("(" + pm + ", " + common.cnat(level) + ", " + common.cbool(skip) + ", " + NL.coq_ftree(sub) + ")")
+            pcases.append("(" + pm + ", " + common.cnat(level) + ", " + common.cbool(skip) + ", " + coq_tree(sub) + ")")
             pwants.append(cstr(got))
             pmeta.append({"tree": X.strip_ids(sub), "level": level, "skip_ns": skip, "parent_nsmap": None if n is node else NL.snapshot(n.parent)["nsmap"], "output": got})
             lv = rng.choice([0, 1, 2, 4])
             gote = export.to_xml(n, lv)
-            lcases.append("(" + common.cnat(lv) + ", " + NL.coq_ftree(sub) + ")")
+            lcases.append("(" + common.cnat(lv) + ", " + coq_tree(sub) + ")")
             lwants.append(cstr(gote))
             lmeta.append({"tree": X.strip_ids(sub), "level": lv, "output": gote})
             ctx.case(("param", got, gote), True)
@@ -551,7 +572,9 @@ def run(ctx):
                 victims = [s for s in flatten(sn) if s["nsmap"]]
                 if victims:
                     ctx.rng.choice(victims)["nsmap"][0][1] = ""      # falsy namespace name: outside the class, inside the model
-        node = NL.build(X.freshen(sn), attach=not closed)
+            if ctx.rng.random() < 0.05:
+                ctx.rng.choice(flatten(sn))["nsmap"].insert(0, [None, ctx.rng.choice(X.URIS)])   # default namespace
+        node = NL.build(X.freshen(sn), attach=(not closed and ctx.rng.random() < 0.5))   # else: genuinely non-closed
         sn = NL.snapshot(node)                      # the tree as the library holds it
         out = io.to_xml(node)
         NL.reset_store()
@@ -563,7 +586,7 @@ def run(ctx):
             check_reimport(ctx, sn, out)
         else:
             ctx.count("general:out-of-class")
-        gen_cases.append(NL.coq_ftree(sn))
+        gen_cases.append(coq_tree(sn))
         gen_wants.append(cstr(out))
         gen_meta.append({"tree": X.strip_ids(sn), "output": out})
         if in_general_class(sn) and i < n_general:
@@ -585,11 +608,42 @@ def run(ctx):
             check_eml(ctx, sn, out)
             if i < n_eml:
                 docs.append((out, "export.to_xml"))
-        eml_cases.append(NL.coq_ftree(sn))
+        eml_cases.append(coq_tree(sn))
         eml_wants.append(cstr(out))
         eml_meta.append({"tree": X.strip_ids(sn), "output": out})
         if i < 2:
             ctx.sample({"tree": X.strip_ids(sn), "export.to_xml": out}, limit=5)
+
+    # document-first: trees obtained by loading generated XML / JSON documents, through both exporters
+    from harness import c08 as C8
+    n_docfirst = 300 if thorough else 40
+    for i in range(n_docfirst):
+        try:
+            if i % 2 == 0:
+                doc = C8.gen_doc(ctx.rng, {"names": ["a", "b", "para", "title", "eml"], "default_ns": ctx.rng.random() < 0.15})
+                clean, collapse = ctx.rng.choice(C8.FLAGS)
+                node = io.from_xml(doc, clean=clean, collapse=collapse)
+                origin = "from_xml"
+            else:
+                doc = json_doc(gen_tree(ctx.rng, [0], 3, None, True, ctx.rng.random() < 0.8))
+                node = io.from_json(doc)
+                origin = "from_json"
+        except Exception as ex:
+            ctx.fail("harness:docfirst", "loading a generated document raised %s" % type(ex).__name__, {"kind": "harness", "document": doc}, concrete=False)
+            continue
+        sn = NL.snapshot(node)
+        out_g = io.to_xml(node)
+        out_e = export.to_xml(node)
+        NL.reset_store()
+        ctx.case(("docfirst", origin, out_g), True)
+        ctx.count("docfirst:" + origin)
+        if in_general_class(sn):
+            check_general(ctx, sn, out_g, -5)
+            check_reimport(ctx, sn, out_g)
+        if eml_in_class(sn):
+            check_eml(ctx, sn, out_e, source=origin)
+        gen_cases.append(coq_tree(sn)); gen_wants.append(cstr(out_g)); gen_meta.append({"tree": X.strip_ids(sn), "output": out_g, "loaded_by": origin, "document": doc})
+        eml_cases.append(coq_tree(sn)); eml_wants.append(cstr(out_e)); eml_meta.append({"tree": X.strip_ids(sn), "output": out_e, "loaded_by": origin, "document": doc})
 
     # the fixture document through both exporters
     fixture = os.path.join(common.REPO, "tests", "data", "eml.xml")
@@ -614,8 +668,8 @@ def run(ctx):
         subs = [s for s in flatten(sn) if 2 <= len(flatten(s)) <= 14][:25]
         for s in subs:
             n = NL.build(s, attach=False)
-            gen_cases.append(NL.coq_ftree(s)); gen_wants.append(cstr(io.to_xml(n))); gen_meta.append({"tree": X.strip_ids(s), "output": io.to_xml(n)})
-            eml_cases.append(NL.coq_ftree(s)); eml_wants.append(cstr(export.to_xml(n))); eml_meta.append({"tree": X.strip_ids(s), "output": export.to_xml(n)})
+            gen_cases.append(coq_tree(s)); gen_wants.append(cstr(io.to_xml(n))); gen_meta.append({"tree": X.strip_ids(s), "output": io.to_xml(n)})
+            eml_cases.append(coq_tree(s)); eml_wants.append(cstr(export.to_xml(n))); eml_meta.append({"tree": X.strip_ids(s), "output": export.to_xml(n)})
             NL.reset_store()
             ctx.case(("fixture-sub", s["id"]))
     else:
